@@ -337,6 +337,14 @@ pub fn a6_poll_to_await(f: &mut crate::FnLike, cx: &mut Ctx) -> bool {
     // output type: Poll<O> -> O
     let out: syn::Type = match &f.sig.output { syn::ReturnType::Type(_, t) => match &**t { syn::Type::Path(tp) => { let seg = tp.path.segments.last().unwrap(); if seg.ident != "Poll" { return false; } match &seg.arguments { syn::PathArguments::AngleBracketed(ab) => match ab.args.first() { Some(syn::GenericArgument::Type(t)) => t.clone(), _ => return false }, _ => return false } } _ => return false }, _ => return false };
     let mut stmts: Vec<Stmt> = f.block.stmts.iter().filter(|s| match s { Stmt::Macro(m) => !is_dropped_macro(&m.mac), _ => true }).cloned().collect();
+    // `let x = <poll>; x.map(..)` reads the same as `<poll>.map(..)`
+    if stmts.len() == 2 {
+        if let (Stmt::Local(l), Stmt::Expr(Expr::MethodCall(m2), None)) = (&stmts[0], &stmts[1]) {
+            if let (syn::Pat::Ident(pi), Some(init), Expr::Path(rp)) = (&l.pat, &l.init, &*m2.receiver) {
+                if rp.path.is_ident(&pi.ident) && init.diverge.is_none() { let mut m3 = m2.clone(); m3.receiver = init.expr.clone(); stmts = vec![Stmt::Expr(Expr::MethodCall(m3), None)]; }
+            }
+        }
+    }
     if stmts.len() != 1 { return false; }
     let Stmt::Expr(Expr::MethodCall(m), None) = stmts.remove(0) else { return false; };
     if m.method != "map" || m.args.len() != 1 { return false; }
